@@ -91,6 +91,7 @@ type Gen struct {
 	inlineDepth int
 	quiet       bool // inline mode: no obligations
 	nbound      int
+	sentinels   map[*Term]bool
 	defers      []deferred
 	retVals     []retPoint
 	frameIdx    map[string]int
@@ -134,6 +135,7 @@ func (g *Gen) reset() {
 	g.params = map[string]Val{}
 	g.strLits = map[string]*Term{}
 	g.defers = nil
+	g.sentinels = nil
 	g.retVals = nil
 	g.frameIdx = nil
 }
@@ -342,7 +344,36 @@ func (g *Gen) load(st *State, a *Addr, ty types.Type) Val {
 		}
 	})
 	g.wfVal(st, v)
+	if a.Root == RGlobal && len(a.Path) == 0 && !g.P.MutableGlobals[a.Glob] && v.K == VScalar && isErrorType(ty) {
+		g.sentinel(v.T)
+	}
 	return v
+}
+
+func isErrorType(t types.Type) bool {
+	n, ok := t.(*types.Named)
+	return ok && n.Obj().Pkg() == nil && n.Obj().Name() == "error"
+}
+
+// sentinel: a package-level error variable that is never reassigned. Trusted:
+// it is non-nil, distinct from every other sentinel, and errors.Is relates it
+// only to itself (values made by errors.New have no Unwrap/Is methods).
+func (g *Gen) sentinel(t *Term) {
+	if g.sentinels == nil {
+		g.sentinels = map[*Term]bool{}
+	}
+	if g.sentinels[t] {
+		return
+	}
+	g.assume(Ne(t, IntLit(0)))
+	g.assume(g.errIs(t, t))
+	for o := range g.sentinels {
+		g.assume(Ne(t, o))
+		g.assume(Not(g.errIs(t, o)))
+		g.assume(Not(g.errIs(o, t)))
+	}
+	g.sentinels[t] = true
+	g.Assumed["package-level sentinel errors are non-nil, pairwise distinct, never reassigned, and errors.Is relates each only to itself"] = true
 }
 
 func setAt(v Val, acc []int, nv Val) Val {
